@@ -64,7 +64,7 @@ func AllFamilies(tier string, withVectors bool, emit func(AnyBatch)) {
 		cc := c
 		// all of N<=1, and for larger N the cases whose cells contain a multi-instance
 		// or freq-0 or empty-term shape (the shapes with special encodings)
-		if c.N >= 2 && tier == "quick" {
+		if c.N >= 2 {
 			special := false
 			for _, m := range c.Cells {
 				if m == 5 || m == 7 || m == 8 || m == 10 {
@@ -79,7 +79,7 @@ func AllFamilies(tier string, withVectors bool, emit func(AnyBatch)) {
 	})
 	ColumnBatches(tier, func(c BatchCase) {
 		cc := c
-		if c.N > 5 && tier == "quick" {
+		if c.N > 5 {
 			return
 		}
 		emit(AnyBatch{Cells: &cc})
